@@ -120,15 +120,16 @@ def run(ctx, rep):
         n_some = 0
         off_lv = (("M", p1), (("f", [i for i, f in enumerate(itr["variants"][0]["fields"]) if f["name"] == "offset"][0], "offset"),))
         for t, st, calls in an.paths() or []:
+            if t.op == "agg" and t.args[3] == "None" and ("var", R, "Err") in st.facts:
+                continue    # the parse of this entry failed: `.ok()` (or the equivalent match) ends the iteration
             if t.op == "agg" and t.args[3] == "None":
                 ok = an.truth(st.facts, T.bin("Eq", T.length(idata), T.const("usize", 0), "usize")) is True and an.read(st, off_lv) is ioff
                 rep.require(ok, "iterator", "next:none-guard", w, "early None only for empty data, offset untouched",
                             "ParsingIterator::next returns None early under a condition other than empty data (iteration may stop before len() items)")
-            elif t.op == "call" and t.args[0] == "result::Result::ok" and t.args[2][0] is R:
+            elif t.op == "agg" and t.args[3] == "Some" and t.args[4][0] is T.payload(R, "Ok") and ("var", R, "Ok") in st.facts:
                 n_some += 1
-                okst = State(st.env, frozenset(set(st.facts) | {("var", R, "Ok")}))
-                rep.require(an.read(okst, off_lv) is T.bin("Add", ioff, isize, "usize"), "iterator", "next:advance", w,
-                            "on success the offset advances by exactly one entry", "offset after a successful next() is %s" % pp(an.read(okst, off_lv)))
+                rep.require(an.read(st, off_lv) is T.bin("Add", ioff, isize, "usize"), "iterator", "next:advance", w,
+                            "on success the offset advances by exactly one entry", "offset after a successful next() is %s" % pp(an.read(st, off_lv)))
             else:
                 rep.bad("iterator", "next:outcome", w, "UNRECOGNISED outcome %s: next() is not parse_at(.., &mut self.offset, self.data).ok()" % pp(t)[:200])
         rep.require(n_some == 1, "iterator", "next:one-parse", w, "one parsing path", "%d parsing paths" % n_some)
